@@ -8,11 +8,15 @@ LEVEL_TEXT = ("Coq theorems (abstract field with conjugation, ordered where an o
               "model of ma / arma_estimate / arma2psd and the six AR/MA/ARMA class pipelines: exactly P and Q coefficients; the exact "
               "argument set on which arma_estimate returns; for P = Q the sequence handed to the covariance method is [r_1..r_lag] "
               "(unbiased lags) and its normal equations are those of the modified Yule-Walker system over lags Q+1..lag; the residual "
-              "handed to ma is x*[1,a] on n = P..N-1; ma = Yule-Walker of the long-AR polynomial with rho > 0 and |k| < 1 at every stage "
-              "(N*P_m is a sum of squared moduli); stored psd = c*(rho/sampling)*|B|^2/|A|^2 of the stored ar/ma/rho. Tie: the same "
-              "Gallina term run inside Coq on dyadic inputs at QcC (exact; every error branch), BigQ Gaussian rationals (exact) and "
-              "binary64 (deep chained cases), class PSDs exactly on the grids NFFT in {1,2,4}, a fail-closed AST extraction of the six "
-              "__call__ bodies, and a property-directed search on the implementation with independent oracles.")
+              "handed to ma is x*[1,a] on n = P..N-1; ma = Yule-Walker of the long-AR polynomial with rho > 0; INVERTIBILITY: every root "
+              "of the MA polynomial of ma / arma_estimate (in the field, in any ordered extension, and - for rational or complex data - every "
+              "complex root) lies strictly inside the unit circle (C12's positive-definiteness root-location argument applied to the "
+              "non-zero vector [1,a]); stored psd = c*(rho/sampling)*|B|^2/|A|^2 of the stored ar/ma/rho; B(w^k) <> 0 on every DFT grid, "
+              "hence the PSDs of pma, pyule, pburg are strictly positive with non-zero denominators, parma's under the hypothesis that its "
+              "covariance-method AR part does not vanish on the grid. Tie: the same Gallina term run inside Coq on dyadic inputs at QcC "
+              "(exact; every error branch), BigQ Gaussian rationals (exact) and binary64 (deep chained cases), class PSDs exactly on the "
+              "grids NFFT in {1,2,4}, a fail-closed AST extraction of the six __call__ bodies, and a property-directed search on the "
+              "implementation with independent oracles.")
 TRUSTED = ["Coq 8.16.1 kernel + vm_compute",
            "hand-written model coq/Model/ArmaEst.v (tie = correspondence run + AST extraction of the class pipelines)",
            "arcovar_marple / arcovar (scipy lstsq) enter the model as oracles that satisfy the normal equations of the covariance "
@@ -20,16 +24,22 @@ TRUSTED = ["Coq 8.16.1 kernel + vm_compute",
            "and with zero tolerance, that this instance meets the hypothesis on every exact case",
            "Bignums BigQ (Instances/BigQC_C15.v) and PrimFloat binary64 are used only to execute the model term in the correspondence "
            "run; the theorems are applied to QcC (Laws + OrdLaws proved)",
+           "the three '..._complex' / '..._C' theorems (all complex roots) are instances at Coquelicot's C and use the standard-library "
+           "axioms of the real numbers (ClassicalDedekindReals.sig_not_dec, sig_forall_dec, functional_extensionality_dep); the other 21 "
+           "theorems are closed under the global context",
            "numpy.fft enters as a twiddle character (Theory/Dft.v); 2*pi enters as a symbol",
            "Python harness (snapshot, generators, float->dyadic conversion, numpy.roots / numpy.linalg in the search oracles)"]
-UNPROVED = ["MA zeros strictly inside the unit circle: proved up to '|k| < 1 at every stage of the Yule-Walker run'; the Schur-Cohn step "
-            "(root location) is search only (numpy.roots)",
-            "strict positivity / finiteness of the class PSDs (A has no zero on the grid): search only",
-            "rho > 0 of arma_estimate is proved under the hypothesis that the filtered residual is not identically zero",
+UNPROVED = ["strict positivity / finiteness of the PSDs of parma, pcovar, pmodcovar: their AR part comes from the covariance / modified "
+            "covariance method, for which no stability theorem exists (a pole may lie on the unit circle), so A(w^k) <> 0 stays a hypothesis "
+            "(class_psd_pos, parma_psd_pos) and is checked by search only; rho > 0 of pcovar/pmodcovar is C14's",
+            "rho > 0 and invertibility of arma_estimate's MA part are proved under the hypothesis that the filtered residual is not "
+            "identically zero (for a zero residual the code returns nan)",
             "that Marple's fast recursion (arcovar_marple) and scipy lstsq return a solution of the normal equations: oracle hypothesis, "
             "checked by correspondence and by the normal-equation residual in the search",
             "on part of the stated domain the code does not return a model (lag < P, lag = P > 4, lag >= N raise; P <= lag < 2P <= 8 can "
-            "give NaN): arma_returns_iff gives the exact set; the search reports these inputs as violations with their own keys"]
+            "give NaN): arma_returns_iff gives the exact set; known findings D26 (six keys)",
+            "rounding of the binary64 code is outside the theorems (numpy.roots of the returned MA polynomial and PSD positivity are "
+            "re-checked numerically by the search)"]
 ASSUMPTIONS = ["exact arithmetic in the theorems", "non-degenerate data as in the property statement (full-rank covariance system for the "
                "value comparison; the normal-equation clause is checked also when it is under-determined)"]
 RULE = ("in Coq: real/complex integer data; ma N<=20, Q<=3, M<=7 (QcC); arma_estimate all error branches P<=7 and small returned cases (QcC), "
